@@ -2,6 +2,7 @@ import RactorModel.Extracted
 import RactorModel.Lemmas.AdmissionCore
 import RactorModel.Lemmas.AdmissionIds
 import RactorModel.Lemmas.AdmissionQueue
+import RactorModel.Lemmas.AdmissionOracle
 
 /-!
 # C02 — the mailbox delivers accepted messages once, in order
@@ -107,8 +108,8 @@ already returned `Ok` while the send of `m₂` has not performed its first step 
 allocated, or its frame is still parked at `send.status`), then in every continuation in which `m₂`
 gets enqueued, `m₁` is before `m₂` in the channel. (Two sends of one sender are the special case.) -/
 theorem real_time_order (progs : List (List Op)) (sched₁ sched₂ : List Tid) (m₁ m₂ : Nat)
-    (late₁ : Bool)
-    (hdone : ⟨.send, m₁, .ok, late₁⟩ ∈ (run (init progs) sched₁).sh.rets)
+    (late₁ : Bool) (seen₁ : List Nat)
+    (hdone : ⟨.send, m₁, .ok, late₁, seen₁⟩ ∈ (run (init progs) sched₁).sh.rets)
     (hnot : (run (init progs) sched₁).sh.nextId ≤ m₂ ∨
       ∃ stack ∈ (run (init progs) sched₁).threads, ∃ f ∈ stack, f.pc = .sStatus ∧ f.id = m₂)
     (henq : Item.msg m₂ ∈ (run (run (init progs) sched₁) sched₂).sh.enq) :
@@ -141,8 +142,8 @@ theorem real_time_order (progs : List (List Op)) (sched₁ sched₂ : List Tid) 
 (`handled` is a prefix of the enqueue order, `handled_in_enqueue_order`). Stated directly: if both
 have been handled, `m₁` comes first. -/
 theorem real_time_order_handled (progs : List (List Op)) (sched₁ sched₂ : List Tid) (m₁ m₂ : Nat)
-    (late₁ : Bool)
-    (hdone : ⟨.send, m₁, .ok, late₁⟩ ∈ (run (init progs) sched₁).sh.rets)
+    (late₁ : Bool) (seen₁ : List Nat)
+    (hdone : ⟨.send, m₁, .ok, late₁, seen₁⟩ ∈ (run (init progs) sched₁).sh.rets)
     (hnot : (run (init progs) sched₁).sh.nextId ≤ m₂ ∨
       ∃ stack ∈ (run (init progs) sched₁).threads, ∃ f ∈ stack, f.pc = .sStatus ∧ f.id = m₂)
     (h2 : m₂ ∈ (run (run (init progs) sched₁) sched₂).sh.handled) :
@@ -158,7 +159,7 @@ theorem real_time_order_handled (progs : List (List Op)) (sched₁ sched₂ : Li
     rw [count_msgIds] at this
     rw [q.conserve]
     exact List.mem_append_left _ (List.mem_append_left _ (List.count_pos_iff.mp this))
-  obtain ⟨a, b, c, habc⟩ := real_time_order progs sched₁ sched₂ m₁ m₂ late₁ hdone hnot hmem
+  obtain ⟨a, b, c, habc⟩ := real_time_order progs sched₁ sched₂ m₁ m₂ late₁ seen₁ hdone hnot hmem
   generalize run (run (init progs) sched₁) sched₂ = g at *
   -- `deqd` is a prefix of `enq` containing `m₂`, which occurs once in `enq`, after `m₁`
   have hd : Item.msg m₂ ∈ g.sh.deqd := by
@@ -199,14 +200,50 @@ theorem nothing_handled_after_close (g : G) (sched : List Tid) (h : g.sh.rxOpen 
 /-- (d) A wrong-type send is rejected with `InvalidActorType` without disturbing the actor: it
 changes no component of the shared state (only the ghost log of returned ops grows). -/
 theorem wrong_type_send_changes_nothing (s : Shared) (id : Nat) (late bf : Bool) (ops : List Op)
-    (rest : List Frame) :
-    stepThread s (⟨.bad, id, late, ops, bf⟩ :: rest) =
-      some ({ s with rets := s.rets ++ [⟨.bad, id, .invalidType, late⟩] }, rest) := by
+    (sk : List Nat) (rest : List Frame) :
+    stepThread s (⟨.bad, id, late, ops, bf, sk⟩ :: rest) =
+      some ({ s with rets := s.rets ++ [⟨.bad, id, .invalidType, late, sk⟩] }, rest) := by
   simp only [stepThread, finish, kindOf]
+
+/-- **A send that is not interleaved with anything** (API level): a thread whose whole program is
+one plain `send` runs to completion in 8 steps. -/
+theorem uninterleaved_send (g : G) (i : Nat) (h : g.threads[i]? = some [{ pc := .run, ops := [.send [] false] }]) :
+    (run g (List.replicate 8 (.t i))).sh =
+      (if stDraining ≤ g.sh.status ∨ g.sh.word.closed = true ∨ g.sh.rxOpen = false then
+        -- rejected by the status gate, by closed admission, or by the closed channel: the
+        -- message is handed back, nothing else changes
+        { g.sh with nextId := g.sh.nextId + 1,
+                    rets := g.sh.rets ++ [⟨.send, g.sh.nextId, .sendErr, g.sh.word.closed, okIds g.sh.rets⟩] }
+      else
+        { g.sh with nextId := g.sh.nextId + 1,
+                    queue := g.sh.queue ++ [.msg g.sh.nextId], enq := g.sh.enq ++ [.msg g.sh.nextId],
+                    rets := g.sh.rets ++ [⟨.send, g.sh.nextId, .ok, false, okIds g.sh.rets⟩] }) := by
+  rw [run_replicate 8 h]
+  obtain ⟨sh, threads⟩ := g
+  obtain ⟨⟨wc, wm, wn⟩, status, queue, rxOpen, rxStopped, sbo, enq, deqd, handled, flushed, dex, mdrop,
+    nextId, rets⟩ := sh
+  simp only
+  by_cases h1 : stDraining ≤ status
+  · simp [runThread, stepThread, startOp, finish, kindOf, h1]
+  · cases wc
+    · cases rxOpen
+      · simp [runThread, stepThread, startOp, finish, kindOf, h1, markerCond]
+      · simp [runThread, stepThread, startOp, finish, kindOf, h1, markerCond]
+    · simp [runThread, stepThread, startOp, finish, kindOf, h1]
 
 /-- The status word never decreases (`fetch_max`, and `drain`'s `fetch_update`). -/
 theorem status_monotone (g : G) (sched : List Tid) : g.sh.status ≤ (run g sched).sh.status :=
   (mono_run g sched).status
+
+/-- **The run-time oracle is a theorem of the model.** `Obs.violations` — the very function the
+driver evaluates on the implementation's end-of-case observations (handled at most once and only
+if Ok, every Ok handled unless stopped, nothing admitted after the close, count 0 and closed ⇒
+marker at quiescence, exactly one "Drained" exit after a drain, none without) — is empty for every
+end state of the model: all programs, all schedules, no op in flight, receiver ran until it blocked. -/
+theorem oracle_holds_of_model (progs : List (List Op)) (sched : List Tid)
+    (he : endState (run (init progs) sched) = true) :
+    (obsOf (run (init progs) sched)).violations = [] :=
+  violations_nil (reach_run progs sched) he
 
 /-! ### Source guards (E-SRC) -/
 
@@ -218,6 +255,11 @@ theorem src_send_steps :
 /-- `ActorPortSet::drop` closes the message channel before flushing it. -/
 theorem src_port_drop : "message_rx" ∈ Extracted.portSetDropClose ∧ "message_rx" ∈ Extracted.portSetDropFlush := by
   decide
+
+/-- the ghost behind the oracle's `order` clause: the second send of thread 0 starts after the
+first has returned `Ok`, and records it -/
+example : (run (init [[.send [] false, .send [] false]]) (List.replicate 16 (.t 0))).sh.rets
+    = [⟨.send, 0, .ok, false, []⟩, ⟨.send, 1, .ok, false, [0]⟩] := by decide
 
 /-! ### Non-vacuity -/
 
@@ -234,10 +276,10 @@ def exampleSched : List Tid :=
 example : (run (init exampleProgs) exampleSched).sh.enq = [.msg 1, .msg 0] := by decide
 example : (run (init exampleProgs) exampleSched).sh.handled = [1, 0] := by decide
 example : (run (init exampleProgs) exampleSched).sh.rets =
-    [⟨.send, 1, .ok, false⟩, ⟨.send, 0, .ok, false⟩, ⟨.bad, 0, .invalidType, false⟩] := by decide
+    [⟨.send, 1, .ok, false, []⟩, ⟨.send, 0, .ok, false, []⟩, ⟨.bad, 0, .invalidType, false, []⟩] := by decide
 /-- hypotheses of `real_time_order` are satisfiable: after thread 1's complete send, a second
 program's send has not started. -/
-example : ⟨.send, 0, .ok, false⟩ ∈ (run (init [[.send [] false], [.send [] false]])
+example : ⟨.send, 0, .ok, false, []⟩ ∈ (run (init [[.send [] false], [.send [] false]])
       (List.replicate 8 (.t 0))).sh.rets
     ∧ (run (init [[.send [] false], [.send [] false]]) (List.replicate 8 (.t 0))).sh.nextId ≤ 1
     ∧ Item.msg 1 ∈ (run (run (init [[.send [] false], [.send [] false]]) (List.replicate 8 (.t 0)))
@@ -245,7 +287,7 @@ example : ⟨.send, 0, .ok, false⟩ ∈ (run (init [[.send [] false], [.send []
 /-- a send racing with the receiver's exit gets its message back -/
 example : (run (init [[.send [] false]])
     [.t 0, .t 0, .t 0, .t 0, .t 0, .t 0, .rxStop, .rxClose, .t 0, .t 0]).sh.rets
-      = [⟨.send, 0, .sendErr, false⟩] := by decide
+      = [⟨.send, 0, .sendErr, false, []⟩] := by decide
 
 end C02
 
@@ -260,6 +302,8 @@ end C02
 #print axioms C02.real_time_order_handled
 #print axioms C02.nothing_handled_after_close
 #print axioms C02.wrong_type_send_changes_nothing
+#print axioms C02.uninterleaved_send
 #print axioms C02.status_monotone
+#print axioms C02.oracle_holds_of_model
 #print axioms C02.src_send_steps
 #print axioms C02.src_port_drop
